@@ -165,3 +165,17 @@ let show_val = function
   | VMaybeRef None -> "n"
   | VMaybeRef (Some c) -> cell_tag c
   | VAddr a -> show_addr a
+
+(* ---- dictionaries ---- *)
+let rec cell_text (c : cell) : string =
+  let Cell (ty, bits, refs) = c in
+  Printf.sprintf "[%s%s%s]" (if ty = Zneg XH then "" else string_of_int (int_of_z ty) ^ "!")
+    (str_of_bits bits) (String.concat "" (List.map cell_text refs))
+let parse_kv (trees : cell array) (t : string) =
+  match String.split_on_char ';' t with
+  | [k; vb; vr] ->
+    (bits_of_str k, (bits_of_str vb, if vr = "" then [] else List.map (fun i -> trees.(int_of_string i)) (String.split_on_char ',' vr)))
+  | _ -> failwith "kv"
+let show_leaf (k, (s : slice0)) =
+  Printf.sprintf "%s=%s/%s" (str_of_bits k) (str_of_bits s.s_bits) (commas cell_tag s.s_refs)
+let kind_char = function KShort -> 's' | KLong -> 'l' | KSame -> 'e'
